@@ -1,7 +1,7 @@
 """C14 -- see DESIGN.md section 4, C14."""
 from . import handlers, sqlunits
 
-LEVEL = "other"
+LEVEL = "proof"
 EXPLANATION = "trace obligations of the real handlers (layer L2) selected by the prefix C14/"
 ASSUMPTIONS = []
 TRUSTED = []
